@@ -73,6 +73,17 @@ def r1(ctx):
     ctx.check("R02.1", "convolution:guards", bounds_only, "guards:" + ";".join(str(g) for g in f.guards)[:120], where, "only the input-bounds guard")
     stores = [s_ for s_ in ex.stmts if s_.op == "=" and isinstance(s_.target, Access) and s_.target.name == f.target.name]
     ctx.check("R02.1", "convolution:store", len(stores) == 1 and [str(i) for i in stores[0].target.idx] == [str(i) for i in f.target.idx], "store", where, "y[f][oh][ow] = sum")
+    # the number of window positions per axis: floor((extent - dilation*(kernel - 1) - 1) / stride) + 1 of the (already padded) input
+    if ya and len(ya[0]) == 3:
+        from .c08 import _subst as _sb
+        tb = {"self.stride.0": Rat.atom("S0"), "self.stride.1": Rat.atom("S1"), "self.dilation.0": Rat.atom("D0"), "self.dilation.1": Rat.atom("D1"),
+              "len(x[0])": Rat.atom("IH"), "len(x[0][0])": Rat.atom("IW"), "len(kernels[0][0])": Rat.atom("K0"), "len(kernels[0][0][0])": Rat.atom("K1")}
+        for ax, got_, I_, K_, D_, S_ in (("height", ya[0][1], "IH", "K0", "D0", "S0"), ("width", ya[0][2], "IW", "K1", "D1", "S1")):
+            want_ = e1.fn_atom("idiv", Rat.atom(I_) - Rat.atom(D_) * (Rat.atom(K_) - 1) - 1, Rat.atom(S_)) + 1
+            g_ = _sb(got_, tb)
+            ctx.check("R02.1", "convolution:output-" + ax, g_ == want_, "window-count:%s:%s" % (ax, short(str(g_), 80)), c.loc(fn),
+                      "floor((extent - dilation*(kernel-1) - 1)/stride) + 1 window positions",
+                      "convolve produces %s rows/columns of windows along the %s; the strided, dilated cross-correlation of an input of that extent has %s" % (g_, ax, want_))
     # ---- transposed convolution
     fn = ctx.fn("deconvolution::Deconvolution::forward")
     ex = mac.extract(c, fn)
